@@ -41,6 +41,40 @@ type LCase struct {
 	// (K of them answered), the others afterwards; Early: AwaitConverged is already running when it ends
 	First int  `json:"first,omitempty"`
 	Early bool `json:"early,omitempty"`
+	// Opts: the options the client is created with: "" | persist | fib | elec | elec+fib.  StartSending then
+	// queues the session parameters (and the election id) ahead of the burst: these handshake messages are
+	// messages 0 (and 1) of the exchange, K counts them, and they are pending transactions like operations
+	Opts string `json:"opts,omitempty"`
+}
+
+// handshake returns the number of messages StartSending queues by itself for the options of the case.
+func (c LCase) handshake() int {
+	switch c.Opts {
+	case "persist", "fib":
+		return 1
+	case "elec", "elec+fib":
+		return 2
+	}
+	return 0
+}
+
+// total is the number of requests of the exchange: handshake + burst.
+func (c LCase) total() int { return c.handshake() + len(c.Burst) }
+
+func (c LCase) fib() bool { return c.Opts == "fib" || c.Opts == "elec+fib" }
+
+func (c LCase) clientOpts() []client.Opt {
+	switch c.Opts {
+	case "persist":
+		return []client.Opt{client.PersistEntries()}
+	case "fib":
+		return []client.Opt{client.FIBACK()}
+	case "elec":
+		return []client.Opt{client.ElectedPrimaryClient(&spb.Uint128{High: 0, Low: 11})}
+	case "elec+fib":
+		return []client.Opt{client.ElectedPrimaryClient(&spb.Uint128{High: 1, Low: 2}), client.FIBACK()}
+	}
+	return nil
 }
 
 // Outcome is the terminal outcome class of a scenario.
@@ -79,9 +113,9 @@ func (c LCase) coq(o Outcome) string {
 	}
 	if c.Kind == "end" {
 		first, answered := c.endShape()
-		return fmt.Sprintf("mklcase true %d FEnd %d %s false %d (%s)", len(c.Burst), answered, mode, first, o.coq())
+		return fmt.Sprintf("mklcase true %d FEnd %d %s false %d (%s)", c.total(), answered, mode, first, o.coq())
 	}
-	return fmt.Sprintf("mklcase %s %d %s %d %s %s 0 (%s)", bcoq(c.Kind != "lockorder"), len(c.Burst), side, c.K, mode, bcoq(c.Slow && c.Side == "send"), o.coq())
+	return fmt.Sprintf("mklcase %s %d %s %d %s %s 0 (%s)", bcoq(c.Kind != "lockorder"), c.total(), side, c.K, mode, bcoq(c.Slow && c.Side == "send"), o.coq())
 }
 
 // clientGoroutines returns the stacks of the goroutines that are inside the client package, and how
@@ -173,7 +207,8 @@ func (r *lrunner) runFault(cs LCase) (out Outcome, problem string) {
 			problem = fmt.Sprintf(format, a...)
 		}
 	}
-	n := len(cs.Burst)
+	n := cs.total() // handshake messages included: they are requests 0.. of the exchange
+	hs := cs.handshake()
 	code := codes.Code(cs.Code)
 	if code == codes.OK {
 		code = codes.Unavailable
@@ -182,7 +217,7 @@ func (r *lrunner) runFault(cs LCase) (out Outcome, problem string) {
 	faultExpected := false
 	p := newProbe()
 	p.failErr = ferr
-	echo := &echoCfg{failAfter: -1, err: ferr}
+	echo := &echoCfg{failAfter: -1, err: ferr, fib: cs.fib()}
 	switch cs.Side {
 	case "send":
 		p.failSendAt.Store(int64(cs.K))
@@ -201,7 +236,7 @@ func (r *lrunner) runFault(cs LCase) (out Outcome, problem string) {
 	}
 	markOldGoroutines()
 	before := 0
-	c, err := client.New()
+	c, err := client.New(cs.clientOpts()...)
 	if err != nil {
 		return out, "client.New: " + err.Error()
 	}
@@ -218,13 +253,13 @@ func (r *lrunner) runFault(cs LCase) (out Outcome, problem string) {
 	if r.f.nextStream() == nil {
 		return out, "server did not see the Modify RPC"
 	}
-	c.StartSending()
-
-	// the application queues the burst
+	// the application: StartSending (which queues the handshake messages of the options), then the burst
 	var completed atomic.Int64
 	qdone := make(chan struct{})
 	go func() {
 		defer close(qdone)
+		c.StartSending()
+		completed.Add(int64(hs))
 		for _, id := range cs.Burst {
 			c.Q(req(id))
 			completed.Add(1)
@@ -356,7 +391,7 @@ func (r *lrunner) runFault(cs LCase) (out Outcome, problem string) {
 			out.Done = true // Reset drains Done(): not observable in this mode
 		}
 		if out.Closed {
-			out.Fresh = r.furtherExchange(c, &problem)
+			out.Fresh = r.furtherExchange(c, cs, &problem)
 		}
 	default:
 		if timed(shortWatchdog, func() { c.Close() }) {
@@ -389,7 +424,7 @@ func (r *lrunner) runFault(cs LCase) (out Outcome, problem string) {
 
 // furtherExchange: after Reset the client must be as new: nothing pending, no results, no errors,
 // Done() empty; after Connect on a new stream three requests are answered and the client converges.
-func (r *lrunner) furtherExchange(c *client.Client, problem *string) bool {
+func (r *lrunner) furtherExchange(c *client.Client, cs LCase, problem *string) bool {
 	ok := true
 	note := func(format string, a ...any) {
 		ok = false
@@ -403,7 +438,10 @@ func (r *lrunner) furtherExchange(c *client.Client, problem *string) bool {
 		return false
 	}
 	if len(st.PendingTransactions) != 0 || len(st.Results) != 0 || len(st.SendErrs) != 0 || len(st.ReadErrs) != 0 {
-		note("stale state after Reset: %d pending, %d results, %d send errors, %d receive errors", len(st.PendingTransactions), len(st.Results), len(st.SendErrs), len(st.ReadErrs))
+		note("stale state after Reset (client options %q): %d pending %s, %d results, %d send errors, %d receive errors", cs.Opts, len(st.PendingTransactions), pendingKinds(st.PendingTransactions), len(st.Results), len(st.SendErrs), len(st.ReadErrs))
+	}
+	if pt, err := c.Pending(); err != nil || len(pt) != 0 {
+		note("Pending() after Reset (client options %q): %d transactions %s, err %v", cs.Opts, len(pt), pendingKinds(pt), err)
 	}
 	select {
 	case <-c.Done():
@@ -412,7 +450,7 @@ func (r *lrunner) furtherExchange(c *client.Client, problem *string) bool {
 	}
 	p := newProbe()
 	r.f.setProbe(p)
-	r.f.stub.setEcho(&echoCfg{failAfter: -1})
+	r.f.stub.setEcho(&echoCfg{failAfter: -1, fib: cs.fib()})
 	ctx, cancel := context.WithCancel(context.Background())
 	defer cancel()
 	if err := c.Connect(ctx); err != nil {
@@ -442,14 +480,36 @@ func (r *lrunner) furtherExchange(c *client.Client, problem *string) bool {
 	if aerr != nil {
 		note("AwaitConverged on the reconnected client: %v", aerr)
 	}
-	if st, _ := c.Status(); st != nil && (len(st.Results) != 3 || len(st.PendingTransactions) != 0) {
-		note("reconnected client: %d results, %d pending after 3 answered requests", len(st.Results), len(st.PendingTransactions))
+	// the new stream's own handshake (session parameters, election id) and the three requests, one response each
+	// (in FIB-ack mode a response carries the RIB and the FIB result)
+	wantRes := cs.handshake() + 3
+	if cs.fib() {
+		wantRes += 3
+	}
+	if st, _ := c.Status(); st != nil && (len(st.Results) != wantRes || len(st.PendingTransactions) != 0) {
+		note("reconnected client (options %q): %d results (want %d), %d pending %s after its handshake and 3 requests were answered", cs.Opts, len(st.Results), wantRes, len(st.PendingTransactions), pendingKinds(st.PendingTransactions))
 	}
 	if !timed(shortWatchdog, func() { c.Close() }) {
 		note("HANG: Close of the reconnected client")
 		return false
 	}
 	return ok
+}
+
+// pendingKinds describes a list of pending transactions: operations / election / session parameters.
+func pendingKinds(pt []client.PendingRequest) string {
+	ops, el, sp := 0, 0, 0
+	for _, x := range pt {
+		switch x.(type) {
+		case *client.PendingOp:
+			ops++
+		case *client.ElectionReqDetails:
+			el++
+		case *client.SessionParamReqDetails:
+			sp++
+		}
+	}
+	return fmt.Sprintf("(%d operations, %d election, %d session parameters)", ops, el, sp)
 }
 
 // runLockOrder: no fault at all.  The burst is queued while not sending; StartSending (which pushes
@@ -553,6 +613,34 @@ func genCases(r *drv.Rng, n int, tier string) []LCase {
 		}
 	}
 	cases = append(cases, LCase{Kind: "fault", Burst: burst(5), Side: "none", Mode: "close"}, LCase{Kind: "fault", Burst: burst(9), Side: "none", Mode: "reset"})
+	// clients created with options: StartSending queues the session parameters (and the election id) ahead of the
+	// burst; the fault hits before / between / after their answers (message index 0 .. handshake+1), both sides;
+	// mostly Reset + Connect + further exchange: nothing stale may be pending, the new stream converges once ITS
+	// handshake and requests are answered
+	oi := 0
+	for _, opts := range []string{"persist", "fib", "elec", "elec+fib"} {
+		hs := LCase{Opts: opts}.handshake()
+		for k := 0; k <= hs+1; k++ {
+			for _, v := range []struct {
+				side, inject string
+				slow         bool
+			}{{"send", "probe", true}, {"send", "probe", false}, {"recv", "server", false}, {"recv", "probe", false}} {
+				if tier == "quick" && v.side == "send" && !v.slow && k > hs {
+					continue
+				}
+				mode := "reset"
+				if oi%5 == 4 {
+					mode = "close"
+				}
+				cases = append(cases, LCase{Kind: "fault", Burst: burst(1 + oi%3), Side: v.side, K: k, Mode: mode, Code: codeClasses[oi%len(codeClasses)], Inject: v.inject, Slow: v.slow, Opts: opts})
+				oi++
+			}
+		}
+		cases = append(cases, LCase{Kind: "fault", Burst: burst(2), Side: "none", Mode: "reset", Opts: opts})
+		// clean end with handshake messages unanswered
+		cases = append(cases, LCase{Kind: "end", Burst: burst(3), Side: "end", First: hs + 1, K: hs - 1, Mode: "reset", Opts: opts},
+			LCase{Kind: "end", Burst: burst(2), Side: "end", First: hs, K: 0, Mode: "reset", Early: true, Opts: opts})
+	}
 	// the server ends the RPC with status OK while requests are unanswered and the sender is idle; further
 	// requests afterwards (1, up to the channel capacity, beyond it); also nothing unanswered / nothing further
 	ends := [][3]int{{2, 1, 0}, {3, 1, 0}, {4, 3, 2}, {8, 2, 1}, {12, 5, 3}, {12, 1, 0}, {9, 8, 1}, {7, 0, 0}, {3, 2, 2}, {4, 4, 2}, {5, 5, 5}}
@@ -584,10 +672,19 @@ func genCases(r *drv.Rng, n int, tier string) []LCase {
 		if r.Chance(1, 4) {
 			sz++ // 2..13
 			first := 1 + r.Intn(sz-1)
-			cases = append(cases, LCase{Kind: "end", Burst: burst(sz), Side: "end", First: first, K: r.Intn(first), Mode: drv.Pick(r, "close", "reset"), Early: r.Chance(1, 3)})
+			c := LCase{Kind: "end", Burst: burst(sz), Side: "end", First: first, K: r.Intn(first), Mode: drv.Pick(r, "close", "reset"), Early: r.Chance(1, 3)}
+			if r.Chance(1, 3) {
+				c.Opts = drv.Pick(r, "persist", "fib", "elec", "elec+fib")
+				c.First += c.handshake()
+			}
+			cases = append(cases, c)
 			continue
 		}
-		c := LCase{Kind: "fault", Burst: burst(sz), Side: drv.Pick(r, "send", "send", "recv"), Mode: drv.Pick(r, "close", "reset"), Code: drv.Pick(r, codeClasses...)}
+		opts := ""
+		if r.Chance(1, 3) {
+			opts = drv.Pick(r, "persist", "fib", "elec", "elec+fib")
+		}
+		c := LCase{Kind: "fault", Opts: opts, Burst: burst(sz), Side: drv.Pick(r, "send", "send", "recv"), Mode: drv.Pick(r, "close", "reset"), Code: drv.Pick(r, codeClasses...)}
 		c.K = r.Intn(sz + 1)
 		if c.Side == "send" {
 			c.Inject = "probe"
@@ -607,9 +704,9 @@ func genCases(r *drv.Rng, n int, tier string) []LCase {
 func caseKey(c LCase) string {
 	if c.Kind == "end" {
 		first, answered := c.endShape()
-		return fmt.Sprintf("end/%d/%d/%d/%s/%v", len(c.Burst), first, answered, c.Mode, c.Early)
+		return fmt.Sprintf("end/%d/%d/%d/%s/%v/%s", len(c.Burst), first, answered, c.Mode, c.Early, c.Opts)
 	}
-	return fmt.Sprintf("%s/%d/%s/%d/%s/%v/%s", c.Kind, len(c.Burst), c.Side, c.K, c.Mode, c.Slow, c.Inject)
+	return fmt.Sprintf("%s/%d/%s/%d/%s/%v/%s/%s", c.Kind, len(c.Burst), c.Side, c.K, c.Mode, c.Slow, c.Inject, c.Opts)
 }
 
 func runC14(args []string) error {
@@ -668,17 +765,23 @@ func runC14(args []string) error {
 			rep.Stats["slow_send"]++
 		}
 		rep.Stats["await_"+o.Await]++
-		if c.Kind == "fault" && c.Side != "none" && c.K < len(c.Burst) {
+		if c.Opts != "" {
+			rep.Stats["opts_"+c.Opts]++
+			if c.Kind != "lockorder" && c.Side != "none" && c.K < c.handshake() {
+				rep.Stats["fault_inside_handshake"]++
+			}
+		}
+		if c.Kind == "fault" && c.Side != "none" && c.K < c.total() {
 			distinct[caseKey(c)] = true
 		}
 		if c.Kind == "end" {
 			first, answered := c.endShape()
 			rep.Stats[fmt.Sprintf("end_unanswered_%d", min(first-answered, 3))]++
-			rep.Stats[fmt.Sprintf("end_further_%d", min(len(c.Burst)-first, 7))]++
+			rep.Stats[fmt.Sprintf("end_further_%d", min(c.total()-first, 7))]++
 			if c.Early {
 				rep.Stats["end_await_already_running"]++
 			}
-			if first-answered >= 1 && len(c.Burst) > first {
+			if first-answered >= 1 && c.total() > first {
 				distinct[caseKey(c)] = true
 			}
 		}
